@@ -240,7 +240,7 @@ def random_script(rng, U=2, nprocs=None, maxlen=30, hostile=0.15, shutdown=0.25,
         for _k in range(rng.choice([0, 0, 1, 1, 1, 2, 3])):
             r = rng.random()
             if r < 0.30:
-                acts.append(['exit', rng.randrange(4), rng.choice([0, 0, 1, 2])])
+                acts.append(['exit', rng.randrange(4), rng.choice([0, 0, 0, 1, 2, 2, 128, 130, 255])])
             elif r < 0.36:
                 acts.append(['sigdie', rng.randrange(4), rng.choice([9, 11, 15, 6, 40, 64, 127, 139])])
             elif r < 0.40:
